@@ -40,6 +40,10 @@ def mkPool [DecidableEq α] (le : α → α → Bool) (args : List (PArg α)) : 
 /-- `P.total` -/
 def poolTotal (dice : List (Hist α)) : Nat := (dice.map total).prod
 
+/-- `p[i:j:k]` : `P(*self._hs[key])`, the slice given by the positions it resolves to -/
+def poolSlice [DecidableEq α] (le : α → α → Bool) (dice : List (Hist α)) (idxs : List Nat) : List (Hist α) :=
+  canonDice le (idxs.filterMap fun j => dice[j]?)
+
 /-- `n @ p` : `P(*chain.from_iterable(repeat(self, n)))` -/
 def matmulP [DecidableEq α] (le : α → α → Bool) (n : Nat) (dice : List (Hist α)) : List (Hist α) :=
   canonDice le (List.replicate n dice).flatten
